@@ -437,3 +437,14 @@ Definition chk_C19_net (c o : value) : bool :=
   | VL [_; _; _; VL [VI 19; VI _]], _ => false
   | _, _ => true
   end.
+
+(* ------------------------------------------------------------------ family "stream" (real loopback, back-pressure writes):
+   obs ::= ( bodyWritten notifiedSum maxOvershoot clientBodyLen stalled ).  C18: the notifications never exceed the body bytes
+   written so far, and once everything is flushed their sum equals them (so a sender that writes its next chunk from the
+   notification never stalls); C03: the client receives exactly those bytes. *)
+Definition chk_stream (c o : value) : bool :=
+  match o with
+  | VL [VI written; VI notified; VI overshoot; VI got; VI stalled] =>
+      (overshoot <=? 0) && (notified =? written) && (got =? written) && negb (as_bool stalled)
+  | _ => false
+  end.
